@@ -581,6 +581,24 @@ def main():
     for short, fname in body_parsers:
         attempt(["body_reads_" + short], (lambda f=fname, sh=short: {"body_reads_" + sh: t_body_reads(f)}))
 
+    # the flush parser reads its one field under a condition on the extras length; the
+    # header-only parser reads nothing
+    def t_flush_read():
+        body = rsexpr.strip_comments(rsexpr.fn_body(codec, "parse_flush_request"))
+        reads = re.findall(r"src\s*\.\s*(?:get_[a-z0-9_]+|split_to|advance)\s*\(", body)
+        m = re.search(r"let\s+mut\s+expiration\s*:\s*u32\s*=\s*0\s*;\s*if\s+self\.header\.extras_length\s*==\s*(\d+)\s*\{\s*expiration\s*=\s*src\.get_(u8|u16|u32|u64)\(\)\s*;\s*\}", body)
+        if not m or len(reads) != 1:
+            raise RsError("parse_flush_request: expected one read of the expiration under a test of the extras length")
+        return {"flush_read": (int(m.group(1)), rsexpr.BITS[m.group(2)] // 8)}
+    attempt(["flush_read"], t_flush_read)
+
+    def t_header_only_reads():
+        body = rsexpr.strip_comments(rsexpr.fn_body(codec, "parse_header_only_request"))
+        if re.search(r"src\s*\.\s*(?:get_[a-z0-9_]+|split_to|advance|clear|truncate)\s*\(", body):
+            raise RsError("parse_header_only_request touches the buffer")
+        return {"header_only_reads": 0}
+    attempt(["header_only_reads"], t_header_only_reads)
+
     # what the encoder writes behind the header, per kind of response: the put calls of each arm
     # of `encode_data` (what the connection sends) and of `write_data` (the Encoder impl), in
     # the order executed. `if !x.is_empty() { put_slice(&x[..]) }` writes x: nothing when empty.
@@ -778,6 +796,15 @@ def main():
             A("(* not translated: %s *)" % untranslated[item].replace("*)", "* )").replace("(*", "( *"))
             A("Definition src_%s_ok : bool := false." % item)
             A("Definition src_%s : list (N * bread) := []." % item)
+    if "flush_read" in gen:
+        A("Definition src_flush_read_ok : bool := true.")
+        A("Definition src_flush_read : N * nat := (%d, %d%%nat)." % gen["flush_read"])
+    else:
+        A("(* not translated: %s *)" % untranslated["flush_read"].replace("*)", "* )").replace("(*", "( *"))
+        A("Definition src_flush_read_ok : bool := false.")
+        A("Definition src_flush_read : N * nat := (0, O).")
+    A("(* parse_header_only_request does not touch the buffer *)")
+    A("Definition src_header_only_reads_nothing : bool := %s." % ("true" if "header_only_reads" in gen else "false"))
     A("(* what the encoder writes behind the header, per kind of response (1 error, 2 get, 3 plain, 4 quit, 5 version, 6 counter): (field, write); fields: " + ", ".join("%d %s" % (v, k) for k, v in wfield_ids.items()) + " *)")
     for item in ("encode_data", "write_data"):
         if item in gen:
